@@ -7,6 +7,7 @@
 From Coq Require Import NArith ZArith List Bool Lia.
 From Flocq Require IEEE754.BinarySingleNaN.
 From Verif Require Import Base.GoNum Model.CertCut Gen.GenBuildParams.
+From Verif Require Proofs.CertCutProofs.
 Import ListNotations.
 Open Scope N_scope.
 
@@ -180,4 +181,25 @@ Proof.
   rewrite (aggchain_part_agree c Hlen).
   destruct consts_agree as (E1 & E2 & _ & _). rewrite E1, E2.
   rewrite sum_bridges_agree, sum_claims_agree. reflexivity.
+Qed.
+
+(* cutting the translated Range twice is cutting it once *)
+Lemma Range_ok_model c f t c' :
+  CertificateBuildParams_Range c f t = (Some c', EOK) -> range_cut (abs c) f t = Ok (abs c').
+Proof.
+  intros H. pose proof (Range_agree c f t) as A.
+  destruct (range_cut (abs c) f t) as [p|e].
+  - destruct A as (c'' & E & <-). rewrite H in E. now injection E as ->.
+  - rewrite H in A. discriminate.
+Qed.
+
+Theorem Range_compose c f1 t1 c1 f2 t2 c2 :
+  events_in_range (abs c) ->
+  CertificateBuildParams_Range c f1 t1 = (Some c1, EOK) ->
+  CertificateBuildParams_Range c1 f2 t2 = (Some c2, EOK) ->
+  exists c2', CertificateBuildParams_Range c f2 t2 = (Some c2', EOK) /\ abs c2' = abs c2.
+Proof.
+  intros Hin H1 H2. apply Range_ok_model in H1. apply Range_ok_model in H2.
+  pose proof (CertCutProofs.range_cut_compose _ _ _ _ _ _ _ Hin H1 H2) as H.
+  pose proof (Range_agree c f2 t2) as A. rewrite H in A. exact A.
 Qed.
